@@ -305,6 +305,22 @@ def check(repo, rep, tier):
             cl = (st, apps[0][2][0])
         elif codec.path_has(st, A(N(cp), 'is_leaf'), False) and apps:
             cn = (st, apps[0][2][0], st.ret)
+    if cl is None:
+        # the leaf fragment is not pushed on the pending list but joined to it where the row is made: it is the one
+        # "(<L ..>)" text the leaf path builds
+        from ..pysym import terms_of
+        for st, o in SymExec(crec, unroll=1).run():
+            if not codec.path_has(st, A(N(cp), 'is_leaf'), True):
+                continue
+            frs = []
+            for t0 in terms_of(st):
+                for x in subterms(t0):
+                    if x[0] == 'fstr' and x not in frs:
+                        ps_ = str_parts(x)
+                        if ps_ and isinstance(ps_[0], str) and ps_[0].startswith('(<L'):
+                            frs.append(x)
+            if len(frs) == 1:
+                cl = (st, frs[0])
     wc = '%s:%s conll_of.rec' % (CONLL, crec.lineno)
     if cl is None or cn is None:
         raise AnalysisError('%s: conll_of.rec fragments not found' % CONLL)
